@@ -516,6 +516,9 @@ class CextProxy:
     def getpagesize(self):
         return self.k.pagesize
 
+    def linux_sysinfo(self):
+        return self.k.sysinfo
+
     def __getattr__(self, n):
         v = getattr(self.real, n)
         if callable(v):
